@@ -368,6 +368,8 @@ func c10Scope(c *Check, tables map[string][]*ssa.Function) {
 	for _, f := range tables["exprFunctions"] {
 		inTable[f] = true
 	}
+	so := buildScopeOps(p)
+	c.Counts["scope_slot_helpers"] = len(so.kind)
 	// (a) binders outside the table: every binding under a scope-variable key is deleted on all paths
 	nb := 0
 	for _, f := range p.RepoFuncs() {
@@ -423,7 +425,64 @@ func c10Scope(c *Check, tables map[string][]*ssa.Function) {
 				c.Okf("SCOPE-DISCIPLINE", key, p.pos(mu.Pos()), "every path from the binding to a return deletes the scope variable")
 			}
 			// the previous binding must be saved and written back by f or by one of its (transitive, static) callers in pkg/eval
-			c.Cond(scopeSavedAndRestored(p, f, 0, map[*ssa.Function]bool{}), "SCOPE-DISCIPLINE", fmt.Sprintf("%s|outer binding restored", fnName(f)), p.pos(mu.Pos()),
+			c.Cond(scopeSavedAndRestored(p, f, 0, map[*ssa.Function]bool{}, so), "SCOPE-DISCIPLINE", fmt.Sprintf("%s|outer binding restored", fnName(f)), p.pos(mu.Pos()),
+				"the previous binding of the scope variable is saved before and written back after the iteration (here or in the calling evaluator)",
+				"nobody saves and restores the previous binding of this scope variable: an outer variable with the same name is deleted by the iteration")
+		})
+	}
+	// the same for bindings made through a slot object (slot.bind(v) … slot.unbind())
+	for _, f := range p.RepoFuncs() {
+		if fnPkgPath(f) != evalPkg || strings.HasSuffix(p.fnFile(f), "/debugger.go") || so.kind[f] != "" {
+			continue
+		}
+		eachInstr(f, func(_ *ssa.BasicBlock, i ssa.Instruction) {
+			kind, recv, cl := so.op(i)
+			if kind != "bind" {
+				return
+			}
+			name := so.slotName(recv)
+			if name == nil {
+				return
+			}
+			isSV := false
+			if prm, ok := unspill(name).(*ssa.Parameter); ok && strings.EqualFold(prm.Name(), "scopevar") {
+				isSV = true
+			}
+			if derives(name, func(v ssa.Value) bool {
+				_, fld, _, ok := loadedField(v)
+				return ok && fld == "Scopevar"
+			}, nil) {
+				isSV = true
+			}
+			if !isSV {
+				return
+			}
+			nb++
+			key := fmt.Sprintf("%s|scope variable released", fnName(f))
+			if inTable[f] {
+				c.Okf("SCOPE-DISCIPLINE", key, p.pos(cl.Pos()), "table-dispatched iterator: its binding is deleted and restored at the dispatch site (checked there)")
+				return
+			}
+			nameKey := exprKey(name, 0)
+			del := func(x ssa.Instruction) bool {
+				if dc, ok := x.(*ssa.Call); ok {
+					if b, ok := dc.Call.Value.(*ssa.Builtin); ok && b.Name() == "delete" && exprKey(dc.Call.Args[1], 0) == nameKey {
+						return true
+					}
+				}
+				if k, r, _ := so.op(x); k == "unbind" {
+					if n := so.slotName(r); n != nil && exprKey(n, 0) == nameKey {
+						return true
+					}
+				}
+				return false
+			}
+			if ret, bad := reachAvoiding(cl, isReturn, del); bad {
+				c.Flagf("SCOPE-DISCIPLINE", key, p.pos(cl.Pos()), "the scope variable bound here is still bound at the return at %s: it leaks into the enclosing evaluation", p.pos(ret.Pos()))
+			} else {
+				c.Okf("SCOPE-DISCIPLINE", key, p.pos(cl.Pos()), "every path from the binding to a return unbinds the scope variable")
+			}
+			c.Cond(scopeSavedAndRestored(p, f, 0, map[*ssa.Function]bool{}, so), "SCOPE-DISCIPLINE", fmt.Sprintf("%s|outer binding restored", fnName(f)), p.pos(cl.Pos()),
 				"the previous binding of the scope variable is saved before and written back after the iteration (here or in the calling evaluator)",
 				"nobody saves and restores the previous binding of this scope variable: an outer variable with the same name is deleted by the iteration")
 		})
@@ -452,7 +511,18 @@ func c10Scope(c *Check, tables map[string][]*ssa.Function) {
 				save = lk
 			}
 		})
-		c.Cond(save != nil, "SCOPE-DISCIPLINE", key+"|previous binding saved", p.pos(call.Pos()),
+		// … or through a slot object
+		var hsave *ssa.Call
+		if save == nil {
+			eachInstr(f, func(_ *ssa.BasicBlock, j ssa.Instruction) {
+				if k, r, cl := so.op(j); k == "save" && instrDominates(cl, call) {
+					if n := so.slotName(r); n != nil && exprKey(n, 0) == svKey {
+						hsave = cl
+					}
+				}
+			})
+		}
+		c.Cond(save != nil || hsave != nil, "SCOPE-DISCIPLINE", key+"|previous binding saved", p.pos(call.Pos()),
 			"the previous binding of the scope variable is read (comma-ok) before the operator runs",
 			"the previous binding of the scope variable is not saved before the operator overwrites it")
 		// delete after on all paths
@@ -460,6 +530,11 @@ func c10Scope(c *Check, tables map[string][]*ssa.Function) {
 			cl, ok := x.(*ssa.Call)
 			if !ok {
 				return false
+			}
+			if k, r, _ := so.op(x); k == "unbind" {
+				if n := so.slotName(r); n != nil && exprKey(n, 0) == svKey {
+					return true
+				}
 			}
 			b, ok := cl.Call.Value.(*ssa.Builtin)
 			return ok && b.Name() == "delete" && exprKey(cl.Call.Args[1], 0) == svKey
@@ -477,6 +552,13 @@ func c10Scope(c *Check, tables map[string][]*ssa.Function) {
 					return
 				}
 				if derives(mu.Value, func(v ssa.Value) bool { return v == ssa.Value(save) }, nil) {
+					restored = true
+				}
+			})
+		}
+		if hsave != nil {
+			eachInstr(f, func(_ *ssa.BasicBlock, j ssa.Instruction) {
+				if k, r, cl := so.op(j); k == "restore" && instrDominates(call, cl) && so.savedBy(r) == hsave {
 					restored = true
 				}
 			})
@@ -919,7 +1001,7 @@ func stripFuncValue(v ssa.Value) (*ssa.Function, bool) {
 // scopeSavedAndRestored: f (or a static caller, up to depth 3) reads the
 // binding of a Scopevar-named key with comma-ok and later writes that value
 // back under the same key (possibly in a deferred closure).
-func scopeSavedAndRestored(p *Program, f *ssa.Function, depth int, seen map[*ssa.Function]bool) (result bool) {
+func scopeSavedAndRestored(p *Program, f *ssa.Function, depth int, seen map[*ssa.Function]bool, so *scopeOps) (result bool) {
 	if depth > 3 {
 		return false
 	}
@@ -996,6 +1078,30 @@ func scopeSavedAndRestored(p *Program, f *ssa.Function, depth int, seen map[*ssa
 			return true
 		}
 	}
+	// saved and restored through a slot object
+	if so != nil {
+		var hsaves []*ssa.Call
+		eachInstr(f, func(_ *ssa.BasicBlock, i ssa.Instruction) {
+			if k, r, cl := so.op(i); k == "save" {
+				if n := so.slotName(r); n != nil && isSVKey(n) {
+					hsaves = append(hsaves, cl)
+				}
+			}
+		})
+		for _, sv := range hsaves {
+			for _, g := range withClosures(f) {
+				restored := false
+				eachInstr(g, func(_ *ssa.BasicBlock, i ssa.Instruction) {
+					if k, r, _ := so.op(i); k == "restore" && so.savedBy(r) == sv {
+						restored = true
+					}
+				})
+				if restored {
+					return true
+				}
+			}
+		}
+	}
 	// callers
 	cg := p.CallGraph()
 	if n := cg.Nodes[f]; n != nil {
@@ -1006,7 +1112,7 @@ func scopeSavedAndRestored(p *Program, f *ssa.Function, depth int, seen map[*ssa
 				continue
 			}
 			any = true
-			if !scopeSavedAndRestored(p, caller, depth+1, seen) {
+			if !scopeSavedAndRestored(p, caller, depth+1, seen, so) {
 				okAll = false
 			}
 		}
